@@ -1,16 +1,23 @@
-use std::{cell::RefCell, fmt, rc::Rc};
+use std::{
+    cell::RefCell,
+    fmt,
+    rc::{Rc, Weak},
+};
 
 use crate::{
     container::Container,
     object::{Object, RTObject},
     path::{Component, Path},
-    pointer::{self, Pointer},
+    pointer::Pointer,
     push_pop::PushPopType,
 };
 
 pub struct Divert {
     obj: Object,
-    target_pointer: RefCell<Pointer>,
+    /// Cached resolution of `target_path`. The container is held weakly: the target is
+    /// often an ancestor of this divert, and a strong reference would form a cycle that
+    /// keeps the whole story alive after it is dropped.
+    target_pointer: RefCell<Option<(Weak<Container>, i32)>>,
     target_path: RefCell<Option<Path>>,
     pub external_args: usize,
     pub is_conditional: bool,
@@ -37,7 +44,7 @@ impl Divert {
             stack_push_type,
             is_external,
             external_args,
-            target_pointer: RefCell::new(pointer::NULL.clone()),
+            target_pointer: RefCell::new(None),
             target_path: RefCell::new(Self::target_path_string(target_path)),
             variable_divert_name: var_divert_name,
         }
@@ -80,30 +87,37 @@ impl Divert {
     }
 
     pub fn get_target_pointer(self: &Rc<Self>) -> Pointer {
-        let target_pointer_null = self.target_pointer.borrow().is_null();
-        if target_pointer_null {
-            // A divert without a (non-empty) target path, or whose target is not a
-            // container, has nowhere to go: the pointer stays null and the caller
-            // reports the failed resolution.
-            let target_path = self.target_path.borrow().clone();
-            let last_component = target_path
-                .as_ref()
-                .and_then(|p| p.get_last_component().cloned());
+        if let Some((container, index)) = self.target_pointer.borrow().as_ref()
+            && let Some(container) = container.upgrade()
+        {
+            return Pointer::new(Some(container), *index);
+        }
 
-            if let (Some(target_path), Some(last_component)) = (target_path, last_component) {
-                let target_obj = Object::resolve_path(self.clone(), &target_path).obj.clone();
+        // A divert without a (non-empty) target path, or whose target is not a
+        // container, has nowhere to go: the pointer stays null and the caller
+        // reports the failed resolution.
+        let mut resolved = Pointer::new(None, -1);
+        let target_path = self.target_path.borrow().clone();
+        let last_component = target_path
+            .as_ref()
+            .and_then(|p| p.get_last_component().cloned());
 
-                if let Some(index) = last_component.index {
-                    self.target_pointer.borrow_mut().container =
-                        target_obj.get_object().get_parent();
-                    self.target_pointer.borrow_mut().index = index as i32;
-                } else if let Ok(c) = target_obj.into_any().downcast::<Container>() {
-                    self.target_pointer.replace(Pointer::start_of(c));
-                }
+        if let (Some(target_path), Some(last_component)) = (target_path, last_component) {
+            let target_obj = Object::resolve_path(self.clone(), &target_path).obj.clone();
+
+            if let Some(index) = last_component.index {
+                resolved = Pointer::new(target_obj.get_object().get_parent(), index as i32);
+            } else if let Ok(c) = target_obj.into_any().downcast::<Container>() {
+                resolved = Pointer::start_of(c);
             }
         }
 
-        self.target_pointer.borrow().clone()
+        if let Some(container) = &resolved.container {
+            self.target_pointer
+                .replace(Some((Rc::downgrade(container), resolved.index)));
+        }
+
+        resolved
     }
 
     pub fn get_target_path(self: &Rc<Self>) -> Option<Path> {
